@@ -1,10 +1,10 @@
 """C20 — the scripting interface is total and agrees with the engine-side view."""
-import math, os, re
+import math, os, subprocess, re
 import cvbuild
 from cvlib import fbits, bits_to_f, tok_val, esc
 from cvscen import inj_cv, cfg, pos, tf, num
 
-VARIANT = "rel"
+VARIANT = "asan"     # totality is also about memory: out-of-bounds accesses in command bodies abort the process
 RULE = ("sequences of 25-60 script commands on a module with 2 variables (one with overlapping atom groups) and 2-3 biases: "
         "well-formed commands drawn from the command table regenerated from the source (every command, right and wrong arity), "
         "malformed ones (missing / extra / empty / very long / non-numeric arguments, unknown objects and sub-commands), "
@@ -57,8 +57,10 @@ def gen(rng, tier):
         conf = OVERLAP + inj_cv("z", 3, -3.0, 3.0, 0.5)
         hconf = "harmonic {\n name h\n colvars d z\n forceConstant 2.0\n centers 1.5 0.2\n}\n"
         sconf = "histogram {\n name hs\n colvars z\n}\n"
-        lines = ["m.new 4", "M.noclock", cfg(conf), cfg(hconf), cfg(sconf)]
-        cvs = ["d", "z"]; biases = ["h", "hs"]
+        vconf = "colvar {\n  name v\n  distancePairs {\n    group1 { atomNumbers 6 7 }\n    group2 { atomNumbers 5 }\n  }\n}\n"    # a vector-valued variable
+        lines = ["m.new 7", "M.noclock", cfg(conf + vconf), cfg(hconf), cfg(sconf)]      # (atoms 4-6 are used only by v and by configuration added through the script)
+        lines += [pos(4, 0.3, 0.1, 0.2), pos(5, 2.0, 0.5, -0.4), pos(6, -1.5, 1.0, 0.8)]
+        cvs = ["d", "z", "v"]; biases = ["h", "hs"]
         lines.append("S.names cvs=%s biases=%s" % (",".join(cvs), ",".join(biases)))
         lines.append("m.script cv colvar d set collect_gradient 1")
         if k == 0:
@@ -68,6 +70,19 @@ def gen(rng, tier):
         ncmd = rng.randint(25, 60)
         queries = []
         stepped = False
+        # directed: configuration added by script behaves like configuration read by the engine, also after a rejected piece
+        expect = []
+        if k % 2 == 1:
+            bad = rng.choice(["colvar {\n name broken\n distanceZ {\n main { atomNumbers 1 }\n }\n}", "harmonic { colvars d", "nosuchkeyword 3",
+                              "colvar {\n name q\n nosuchcomponent {\n }\n}"])
+            lines.append("m.script cv config " + esc(bad))
+            lines.append("S.names cvs=%s biases=%s" % (",".join(cvs), ",".join(biases))); lines.append("m.counts"); expect.append((len(lines), len(cvs), len(biases), "a rejected piece of configuration"))
+            good = "colvar {\n name wd%d\n distanceZ {\n main { atomNumbers 5 }\n ref { dummyAtom (0.0, 0.0, 0.0) }\n }\n}" % k
+            lines.append("m.script cv config " + esc(good)); cvs = cvs + ["wd%d" % k]
+            lines.append("S.names cvs=%s biases=%s" % (",".join(cvs), ",".join(biases))); lines.append("m.counts"); expect.append((len(lines), len(cvs), len(biases), "a valid colvar block submitted with cv config after a rejected one"))
+            gb = "harmonic {\n name wb%d\n colvars wd%d\n centers 0.5\n forceConstant 2.0\n}" % (k, k)
+            lines.append("m.script cv config " + esc(gb)); biases = biases + ["wb%d" % k]
+            lines.append("S.names cvs=%s biases=%s" % (",".join(cvs), ",".join(biases))); lines.append("m.counts"); expect.append((len(lines), len(cvs), len(biases), "a valid bias block submitted with cv config"))
         for j in range(ncmd):
             r = rng.rand()
             if r < 0.2 or not stepped:
@@ -86,6 +101,10 @@ def gen(rng, tier):
                 lines.append("m.script cv getatomids"); q5 = len(lines)
                 lines.append("m.script cv getenergy"); q6 = len(lines)
                 lines.append("m.script cv colvar z value"); q7 = len(lines)
+                if len(queries) == 0 and "v" in cvs:
+                    # a force on the vector-valued variable given as a string of numbers: right length, too short, too long
+                    for arg in ("0.5 -0.25", "0.5", "0.5 -0.25 3.0", "( 0.5 , -0.25 )"):
+                        lines.append("m.script cv colvar v addforce " + esc(arg))
                 queries.append({"forces": fl, "d": dl, "z": zl, "value": q1, "grad": q2, "af": q3, "atomf": q4, "ids": q5, "energy": q6,
                                 "zvalue": q7, "step": fl - 1, "have_d": "d" in cvs, "have_z": "z" in cvs})
                 continue
@@ -134,7 +153,7 @@ def gen(rng, tier):
                 cvs = cvs + [full[2].split()[3]]
             lines.append("S.names cvs=%s biases=%s" % (",".join(cvs), ",".join(biases)))
             lines.append("m.counts")
-        cases.append({"lines": lines, "meta": {"queries": queries, "ncmd": ncmd}, "nontrivial": True})
+        cases.append({"lines": lines, "meta": {"queries": queries, "ncmd": ncmd, "expect_counts": expect}, "nontrivial": True})
     return cases
 
 
@@ -171,6 +190,12 @@ def oracle(case, out):
                 want = ["s%s:%d:%d" % c for c in table()]
                 if sorted(t_impl) != sorted(want):
                     viol.append("the command table regenerated from the source differs from the table of the running library")
+    for (ln, ncv_e, nb_e, what) in case["meta"].get("expect_counts", []):
+        ncv = vals(out, ln, "ncv"); nb = vals(out, ln, "nb")
+        if ncv is None or nb is None or ncv[0] != ncv_e or nb[0] != nb_e:
+            viol.append("after %s the module has %r variables and %r biases; the same text read as engine-side configuration gives %d and %d"
+                        % (what, ncv, nb, ncv_e, nb_e))
+            return viol
     for q in case["meta"]["queries"]:
         rc = vals(out, q["value"], "rc")
         if rc is None:
@@ -226,3 +251,36 @@ def oracle(case, out):
             if v and abs(v[0] - en[0]) > 6e-6 * max(1e-3, abs(en[0])):
                 viol.append("cv getenergy returns %r, the engine was given %r" % (v[0], en[0]))
     return viol
+
+
+def extra(rep, tier, rng):
+    """memcheck: command bodies that hand user strings to the C++ standard library (operator>> into a buffer) are invisible to
+    AddressSanitizer, because the store happens inside the uninstrumented libstdc++; valgrind sees them"""
+    exe = cvbuild.build_harness("rel")
+    work = os.path.join(cvbuild.CACHE, "c20-vg-%d" % os.getpid())
+    os.makedirs(work, exist_ok=True)
+    n = 3 if tier == "quick" else 40
+    runs = errs = 0
+    try:
+        cases = gen(rng, "quick")[:n] if n <= 20 else gen(rng, "thorough")[:n]
+        for k, c in enumerate(cases):
+            f = os.path.join(work, "v%d.txt" % k)
+            open(f, "w").write("\n".join(c["lines"]) + "\n")
+            p = subprocess.run(["valgrind", "-q", "--error-exitcode=97", "--errors-for-leak-kinds=none", exe, f], stdout=subprocess.PIPE,
+                               stderr=subprocess.PIPE, text=True, errors="replace", timeout=1800)
+            runs += 1
+            if p.returncode == 97 or "Invalid write" in p.stderr or "Invalid read" in p.stderr:
+                errs += 1
+                first = "\n".join(l for l in p.stderr.splitlines() if l.startswith("=="))[:2500]
+                rep.violation("memcheck reports an invalid memory access while script commands run (case %d): %s" % (k, first.splitlines()[0] if first else ""),
+                              "#! run under valgrind: valgrind -q .cache/cvharness-rel <this file>\n#! " + first.replace("\n", "\n#! ") + "\n" + "\n".join(c["lines"]) + "\n",
+                              "memcheck_%d_seed%d" % (k, rep.seed), found_input=True)
+                break
+            if p.returncode != 0:
+                rep.violation("the library died under memcheck (status %d, case %d)" % (p.returncode, k), "\n".join(c["lines"]) + "\n",
+                              "memcheck_crash_%d_seed%d" % (k, rep.seed), found_input=True)
+                break
+    finally:
+        import shutil
+        shutil.rmtree(work, ignore_errors=True)
+    rep.extra["memcheck"] = {"runs": runs, "errors": errs}
